@@ -450,10 +450,10 @@ func c17Gen(r *Rand, tier string) []interface{} {
 func c17GenDeep(r *Rand, tier string) []interface{} {
 	var out []interface{}
 	nR64, nCount, nParse, nListen, nLive := 300, 300, 450, 350, 120
-	siteLimits := []int64{1, 10, 5000}
+	siteLimits := []int64{1, 10, 5000, 70000} // 70000: fastcgi's stdin writer has flushed one 65500-byte record when the limit is hit
 	if tier == "thorough" {
 		nR64, nCount, nParse, nListen, nLive = 4000, 4000, 6000, 5000, 1200
-		siteLimits = []int64{1, 2, 10, 100, 4095, 4096, 5000, 32768, 32769, 70000, 300000}
+		siteLimits = []int64{1, 2, 10, 100, 4095, 4096, 5000, 32768, 32769, 65499, 65500, 65501, 70000, 131000, 300000}
 	}
 	const maxI = int64(math.MaxInt64)
 	bufsFor := func(n int) []int {
@@ -1017,7 +1017,7 @@ func c17RunSite(in *c17In) Result {
 	backend, prefix := int64(-1), true
 	over := int64(in.BodyLen) > in.Limit
 	wait := 2 * time.Second
-	if in.Consumer == 1 && over && status == 400 {
+	if in.Consumer == 1 && over && (status == 413 || status == 400) {
 		wait = 40 * time.Millisecond // the buffering proxy gives up before it contacts anyone
 	}
 	deadline := time.Now().Add(wait)
@@ -1062,8 +1062,9 @@ func c17RunSite(in *c17In) Result {
 		ow = "over"
 	}
 	sig := fmt.Sprintf("site:%s:%s:%s", kind, framing, ow)
-	// the known deviations: the body is cut correctly and nothing else is wrong, only the status
-	// the client sees is not 413
+	// precise classes for the deviations once found on real sites (F-C17-4/5/6): the body is cut
+	// correctly and nothing else is wrong, only the status the client sees is not 413.  The spec in
+	// judge demands 413 for all of them; the class only names the regression
 	if over && prefix && backend <= in.Limit && (followup == 204 || followup == -2) {
 		switch {
 		case in.Consumer == 0 && !in.Chunked && status == 502 && backend == in.Limit:
